@@ -301,14 +301,22 @@ def fieldRegions (R : Rg) (fs : List AV) : List Rg :=
   let es := ends R.stop (fs.zip ss)
   (ss.zip es).map (fun p => { pos := p.1, stop := p.2 })
 
+/-- where the region of element `n` starts before its own comments are looked at -/
+def startAfter (R : Rg) (prev : Option AV) (n : AV) : Nat :=
+  match prev with
+  | none => R.pos
+  | some pv => if (commentsFor pv).2.isEmpty then pv.stop else n.pos
+
+/-- where the region of element `n` ends before its own comments are looked at -/
+def endBefore (R : Rg) (n : AV) (next : Option AV) : Nat :=
+  match next with
+  | none => R.stop
+  | some nx => if (commentsFor nx).1.isEmpty then nx.pos else n.stop
+
 /-- the region of element `n` of a slice of nodes, between `prev` and `next` -/
 def elemRegion (R : Rg) (prev : Option AV) (n : AV) (next : Option AV) : Rg :=
-  let p := match prev with
-    | none => R.pos
-    | some pv => if (commentsFor pv).2.isEmpty then pv.stop else n.pos
-  let e := match next with
-    | none => R.stop
-    | some nx => if (commentsFor nx).1.isEmpty then nx.pos else n.stop
+  let p := startAfter R prev n
+  let e := endBefore R n next
   let (before, after) := commentsFor n
   let p := match before.getLast? with
     | some l => max p l.2
